@@ -200,6 +200,9 @@ func runC12Case(c *Ctx, kind string, optSets []int, input []rune) {
 	for _, o := range optSets {
 		op := tokOpLine(kind, o, input)
 		setOpts(t, o)
+		if c.Evals%3 == 1 {
+			safeCall(func() string { t.TokenizeBuffer(""); return "" }) // the empty text read immediately before
+		}
 		ts, st := tokenizeOn(t, string(input))
 		c.record(op, multi && len(raw) > 2)
 		c.count("kind:" + kind[:1])
